@@ -1,6 +1,8 @@
 //! zksim - deterministic simulation with fault injection for midnight-zk.
 #![allow(dead_code)]
+mod bigcurve;
 mod core;
+mod enc;
 mod fixtures;
 mod gen_circuit;
 mod pipeline;
